@@ -209,6 +209,19 @@ class Evaluator:
                 return self.E(e['b'], P, fr)
             a = self.E(e['a'], P, fr)
             b = self.E(e['b'], P, fr)
+            if op in ('+', '-', '*', '/', '%') and e.get('t') in ('int', 'unsigned int', 'long', 'unsigned long') and a[0] == 'num' and b[0] == 'num' \
+                    and a[1].denominator == 1 and b[1].denominator == 1:
+                # integer constant folding (constant propagation of int arguments)
+                x, y = int(a[1]), int(b[1])
+                if op == '+':
+                    return num(x + y)
+                if op == '-':
+                    return num(x - y)
+                if op == '*':
+                    return num(x * y)
+                if y != 0:
+                    q = abs(x) // abs(y) * (1 if (x >= 0) == (y >= 0) else -1)
+                    return num(q) if op == '/' else num(x - q * y)
             if op in ('+', '-', '*', '/'):
                 if op == '/' and 'int' in str(e.get('t', '')) and e.get('t') in ('int', 'unsigned int', 'long', 'unsigned long'):
                     return ('call', 'intdiv', (a, b))
@@ -224,6 +237,11 @@ class Evaluator:
             return ('unk', 'binop ' + op)
         if k == 'cond':
             c = self.E(e['c'], P, fr)
+            tv = self.truth(c)
+            if tv is True:
+                return self.E(e['a'], P, fr)
+            if tv is False:
+                return self.E(e['b'], P, fr)
             return ('ite', c, self.E(e['a'], P, fr), self.E(e['b'], P, fr))
         if k == 'call':
             return self.call(e, P, fr)
@@ -683,6 +701,29 @@ class Evaluator:
     def truth(c):
         if c[0] == 'num':
             return c[1] != 0
+        if c[0] in ('or', 'and'):
+            a, b = Evaluator.truth(c[1]), Evaluator.truth(c[2])
+            if c[0] == 'or':
+                return True if (a is True or b is True) else (False if (a is False and b is False) else None)
+            return False if (a is False or b is False) else (True if (a is True and b is True) else None)
+        if c[0] == 'not':
+            a = Evaluator.truth(c[1])
+            return None if a is None else (not a)
+        if c[0] == 'cmp':
+            def cv(t):
+                if t[0] == 'num':
+                    return t[1]
+                if t[0] == 'neg' and t[1][0] == 'num':
+                    return -t[1][1]
+                if t[0] == 'call' and t[1] == 'mod' and t[2][0][0] == 'num' and t[2][1][0] == 'num' and t[2][1][1] != 0:
+                    return Fraction(int(t[2][0][1]) % int(t[2][1][1]))
+                if t[0] == 'add' and all(x[0] == 'num' or (x[0] == 'neg' and x[1][0] == 'num') for x in t[1]):
+                    return sum((x[1] if x[0] == 'num' else -x[1][1]) for x in t[1])
+                return None
+            a, b = cv(c[2]), cv(c[3])
+            if a is not None and b is not None:
+                return {'<': a < b, '>': a > b, '<=': a <= b, '>=': a >= b, '==': a == b, '!=': a != b}[c[1]]
+            return None
         if c[0] == 'cmp' and c[2][0] == 'num' and c[3][0] == 'num':
             a, b = c[2][1], c[3][1]
             return {'<': a < b, '>': a > b, '<=': a <= b, '>=': a >= b, '==': a == b, '!=': a != b}[c[1]]
